@@ -127,7 +127,8 @@ func cmdC01Gen(args []string) {
 		samples                                          []any
 	)
 	letters := "abcdefghijklmnopqrstuvwxyz"
-	schemePairs := [][2]string{{"https", "http"}, {"http", "https"}, {"foo", "foobar"}, {"a-b.c+d", "https"}, {"http", "htt"}, {"wss", "ws"}}
+	schemePairs := [][3]string{{"https", "http", "httpss"}, {"http", "https", "htt"}, {"foo", "foobar", "fo"}, {"a-b.c+d", "https", "a-b.c"},
+		{"http", "htt", "https"}, {"wss", "ws", "w"}, {"b", "a", "c"}, {"c", "b", "a"}}
 
 	var wg sync.WaitGroup
 	nw := 16
@@ -150,8 +151,12 @@ func cmdC01Gen(args []string) {
 					p1 = 1 + rng.Intn(65535)
 				}
 				p2 := 1 + rng.Intn(65535)
-				for p2 == p1 {
+				for p2 == p1 || p2 == 80 || p2 == 443 {
 					p2 = 1 + rng.Intn(65535)
+				}
+				p3 := 1 + rng.Intn(65535)
+				for p3 == p1 || p3 == p2 {
+					p3 = 1 + rng.Intn(65535)
 				}
 				mapHost := func(h []int) string {
 					b := make([]byte, len(h))
@@ -168,10 +173,13 @@ func cmdC01Gen(args []string) {
 					return string(b)
 				}
 				mapScheme := func(s string) string {
-					if s == "s" {
+					switch s {
+					case "s":
 						return sp[0]
+					case "t":
+						return sp[1]
 					}
-					return sp[1]
+					return sp[2]
 				}
 				mapPort := func(p int) int {
 					switch p {
@@ -179,6 +187,8 @@ func cmdC01Gen(args []string) {
 						return p1
 					case 2:
 						return p2
+					case 3:
+						return p3
 					}
 					return p
 				}
